@@ -210,7 +210,7 @@ class DPTBase(ABC):
                 # Try to parse the value_type if it is a string but not found by cls.transcoder_by_value_type()
                 # for backwards compatibility (eg. "DPT-5") and strings representing numbers (eg. "7", "9.001")
                 string_type = string_type.upper().strip(" DPT-")
-                if string_type.isdigit():
+                if string_type.isdecimal():
                     transcoder = cls.transcoder_by_dpt(int(string_type))
                 else:
                     try:
